@@ -217,4 +217,4 @@ mod tests {
 
 /// verification hook (compiled only under `cargo kani` or `--cfg reactive_mutiny_verif`): harnesses live outside this repository
 #[cfg(any(kani, reactive_mutiny_verif))]
-mod verif_hooks { include!(concat!(env!("REACTIVE_MUTINY_VERIF_DIR"), "/kani/full_sync_non_blocking_queue.rs")); }
+pub(crate) mod verif_hooks { include!(concat!(env!("REACTIVE_MUTINY_VERIF_DIR"), "/kani/full_sync_non_blocking_queue.rs")); }
